@@ -289,16 +289,19 @@ class Exec:
         self.obls.append(o)
 
     def feasible(self, st, extra=None):
+        """cheap path pruning: only the quantifier-free part of the path condition,
+        no definitional (nonlinear) constraints, tiny timeout.  `unsat` prunes;
+        anything else keeps the path (its obligations are then trivially true if
+        the path is in fact infeasible)."""
         if not self.prune:
             return True
         s = z3.Solver()
-        s.set("timeout", 300)
+        s.set("timeout", 80)
         for h in st.pc:
-            s.add(h)
+            if not _has_quantifier(h):
+                s.add(h)
         if extra is not None:
             s.add(extra)
-        for d in self.ctx.defs:
-            s.add(d)
         r = s.check()
         return r != z3.unsat
 
@@ -1718,6 +1721,20 @@ class _Sym(Exception):
 class _RaisePath(Exception):
     def __init__(self, exc, st, line):
         self.exc, self.st, self.line = exc, st, line
+
+
+def _has_quantifier(t):
+    seen = set()
+    stack = [t]
+    while stack:
+        e = stack.pop()
+        if e.get_id() in seen:
+            continue
+        seen.add(e.get_id())
+        if z3.is_quantifier(e):
+            return True
+        stack.extend(e.children())
+    return False
 
 
 def _occurs(t, v):
